@@ -7,10 +7,10 @@ from vf import gen, plumbing
 
 PID = "C13"
 ANCHORS = ["pyoma2.functions.fdd:SD_est"]
-REQUIRED_MONITORS = ["returned arrays are the caller's", "grid+shape", "welch-equivalence(per)", "hermitian-psd(per)", "bilinear+g2(per)", "bilinear+g2(cor)", "parseval(per)",
+REQUIRED_MONITORS = ["peak location@cor", "returned arrays are the caller's", "grid+shape", "welch-equivalence(per)", "hermitian-psd(per)", "bilinear+g2(per)", "bilinear+g2(cor)", "parseval(per)",
                      "gain-delay(per)", "gain-delay(cor)", "sinusoid-ratio(per)"]
 ALL_STATES = ["pov=0", "pov=0.25", "pov=0.5", "pov=0.75", "ref=all", "ref=subset", "nxseg not a power of two", "nxseg with a prime factor > 5", "negative gain", "1 channel"]
-REQUIRED_STATES = ["pov=0", "pov=0.25", "pov=0.75", "ref=subset", "negative gain", "nxseg with a prime factor > 5", "odd nxseg", "arguments given by position", "record amplitude below 1e-5", "integer-stored records"]
+REQUIRED_STATES = ["correlogram of an odd segment length: peak location", "pov=0", "pov=0.25", "pov=0.75", "ref=subset", "negative gain", "nxseg with a prime factor > 5", "odd nxseg", "arguments given by position", "record amplitude below 1e-5", "integer-stored records"]
 RULE = ("random records (1..8 channels, 1..4 references, 2..10 segments), nxseg in {16..4096} incl. non powers of two, integer nxseg*pov, fs "
         "log-uniform; 'per' compared entry by entry with an independently written Welch estimate (lines >= 2); bilinearity/g^2, Hermitian PSD, "
         "Parseval; multi-channel gain-and-delay records (each entry (i,j) must show gain g_j/g_i and phase -2 pi f (d_j-d_i)/fs); sinusoids at "
@@ -33,7 +33,8 @@ def _cases(tier, seed):
     n1, n2, n3, n4 = (120, 6, 24, 40) if tier == "quick" else (2500, 60, 400, 600)
     return ([{"cls": "welch", "k": k} for k in range(n1)] + [{"cls": "parseval", "k": k} for k in range(n2)]
             + [{"cls": "delay", "k": k} for k in range(n3)] + [{"cls": "sinus", "k": k} for k in range(n4)]
-            + [{"cls": "class_settings", "k": k} for k in range(12 if tier == "quick" else 120)])
+            + [{"cls": "class_settings", "k": k} for k in range(12 if tier == "quick" else 120)]
+            + [{"cls": "cor_peak", "k": k} for k in range(16 if tier == "quick" else 200)])
 
 
 def run_class_settings(ctx, case, rng):
@@ -313,7 +314,38 @@ def run_sinus(ctx, rng):
     ctx.nontrivial(("sinus", nx, k, nch, pov))
 
 
+def run_cor_peak(ctx, case, rng):
+    """'one frequency line every fs/nxseg' also for the correlogram estimator: the spectral peak of a stationary sinusoid at f0 (anywhere
+    between two lines, up to 0.45 fs) sits at f0 on the returned axis - centre of the peak from a three-point fit of log|S|, within 0.25 of a
+    line spacing (calibrated: 0.1 for segment lengths >= 100, even and odd)."""
+    from pyoma2.functions import fdd
+
+    nx = int([125, 243, 625, 128, 101, 999, 256, 375][case["k"] % 8])
+    fs = float(10 ** rng.uniform(0, 3))
+    N = int(nx * rng.uniform(20, 60))
+    k0 = float(rng.uniform(0.3, 0.45) * nx) if case["k"] % 2 == 0 else float(rng.uniform(0.1, 0.45) * nx)
+    f0 = k0 * fs / nx
+    t = np.arange(N) / fs
+    y = np.vstack([np.sin(2 * np.pi * f0 * t + 1.0), 0.5 * np.sin(2 * np.pi * f0 * t + 0.3)]) + 1e-3 * rng.standard_normal((2, N))
+    f, S = fdd.SD_est(y, y, 1 / fs, nx, method="cor")
+    ctx.ev("peak location@cor")
+    a = np.abs(S[0, 0, :])
+    i = int(np.argmax(a[1:-1])) + 1
+    lg = np.log(a[i - 1:i + 2])
+    den = lg[0] - 2 * lg[1] + lg[2]
+    centre = (i + (0.5 * (lg[0] - lg[2]) / den if den != 0 else 0.0)) * (f[1] - f[0])
+    err = abs(centre - f0) / (fs / nx)
+    ctx.maxi("peak location@cor: worst offset in line spacings", float(err))
+    ctx.check(err <= 0.25, "cor:peak_not_at_the_sinusoid_frequency",
+              lambda: f"'cor', nxseg={nx} ({'odd' if nx % 2 else 'even'}): a sinusoid at {f0:.6g} Hz (line {k0:.2f}) peaks at {centre:.6g} Hz on the returned axis, {err:.2f} line spacings off")
+    if nx % 2:
+        ctx.state("correlogram of an odd segment length: peak location")
+    ctx.nontrivial(("cor_peak", nx, round(k0, 2)))
+
+
 def run_case(ctx, case):
+    if case["cls"] == "cor_peak":
+        return run_cor_peak(ctx, case, gen.rng_of(case))
     if case["cls"] == "plumbing":
         return plumbing.run_case(ctx, case, gen.rng_of(case), PLUMB_FIELDS)
     if case["cls"] == "class_settings":
